@@ -888,6 +888,13 @@ class World:
                 return BUILTINS['list_index'](interp, recv, *args)
             if name == 'copy':
                 return recv
+        if isinstance(recv, VList) and name == 'append' and len(args) == 1 and not recv.is_tuple:
+            # in place, as in Python: every name bound to this list sees the new element
+            if recv.segs and recv.segs[-1][0] == 'lit':
+                recv.segs[-1] = ('lit', recv.segs[-1][1] + [args[0]])
+            else:
+                recv.segs.append(('lit', [args[0]]))
+            return NONE
         if isinstance(recv, VObject) and recv.cls == 'set' and name == 'add':
             base, k = recv.attrs['base'], recv.attrs['k']
             base = base if base is not None else getattr(ex, 'set_source', None)
